@@ -35,6 +35,14 @@ namespace ip {
 		, m_timer(ios)
 	{}
 
+	// complete the pending lookups with operation_aborted instead of silently
+	// discarding their handlers. A moved-from resolver has an empty queue.
+	template<typename Protocol>
+	basic_resolver<Protocol>::~basic_resolver()
+	{
+		cancel();
+	}
+
 	template<typename Protocol>
 	basic_resolver<Protocol>::basic_resolver(basic_resolver<Protocol>&&) noexcept = default;
 
